@@ -151,6 +151,47 @@ fn c01_measure() -> i32 {
                 if (n > 256 && (r1 || r2 || r3 || r4 || r5)) || el.as_secs() >= 4 { bad += 1; }
             }
         }
+        // long flat inputs: decode time must stay proportional to the input (each of these takes well under 0.3 s on the
+        // unchanged crate; the bound is 6 s so that a loaded machine does not matter, a quadratic pass over 150 000 items does)
+        {
+            const N: usize = 150_000;
+            let many = |prefix: &[u8], item: &[u8], suffix: &[u8]| { let mut b = prefix.to_vec(); for _ in 0..N { b.extend_from_slice(item); } b.extend_from_slice(suffix); b };
+            let n4 = { let mut h = vec![0x9a]; h.extend_from_slice(&((N as u32) + 4).to_be_bytes()); h };
+            let nn = |extra: usize| { let mut h = vec![0x9a]; h.extend_from_slice(&((N + extra) as u32).to_be_bytes()); h };
+            let mn = |extra: usize| { let mut h = vec![0xba]; h.extend_from_slice(&((N + extra) as u32).to_be_bytes()); h };
+            let mut cases: Vec<(&str, Vec<u8>, Box<dyn Fn(&[u8]) -> bool>)> = vec![];
+            // COSE_KDF_Context with N trailing SuppPrivInfo byte strings
+            { let mut p = n4.clone(); p.extend_from_slice(&[0x01, 0x83, 0xf6, 0xf6, 0xf6, 0x83, 0xf6, 0xf6, 0xf6, 0x82, 0x18, 0x80, 0x40]);
+              cases.push(("COSE_KDF_Context with 150000 SuppPrivInfo entries", many(&p, &[0x40], &[]), Box::new(|b| coset::CoseKdfContext::from_slice(b).map(|c| { let _ = c.clone().to_vec(); }).is_ok()))); }
+            // COSE_Sign with N signatures, COSE_Encrypt with N recipients
+            { let mut p = vec![0x84, 0x40, 0xa0, 0xf6]; p.extend(nn(0));
+              cases.push(("COSE_Sign with 150000 signatures", many(&p, &[0x83, 0x40, 0xa0, 0x40], &[]), Box::new(|b| coset::CoseSign::from_slice(b).map(|c| { let _ = c.clone().to_vec(); }).is_ok())));
+              cases.push(("COSE_Encrypt with 150000 recipients", many(&p, &[0x83, 0x40, 0xa0, 0xf6], &[]), Box::new(|b| coset::CoseEncrypt::from_slice(b).map(|c| { let _ = c.clone().to_vec(); }).is_ok()))); }
+            // header with N counter signatures, with a crit list of N entries
+            { let mut p = vec![0xa1, 0x07]; p.extend(nn(0));
+              cases.push(("header with 150000 counter signatures", many(&p, &[0x83, 0x40, 0xa0, 0x40], &[]), Box::new(|b| coset::Header::from_slice(b).map(|c| { let _ = c.clone().to_vec(); }).is_ok())));
+              let mut p = vec![0xa1, 0x02]; p.extend(nn(0));
+              cases.push(("header with a crit list of 150000 entries", many(&p, &[0x04], &[]), Box::new(|b| coset::Header::from_slice(b).map(|c| { let _ = c.clone().to_vec(); }).is_ok()))); }
+            // key with a key_ops list of N (repeating -> rejected, but quickly), key set of N keys
+            { let mut p = vec![0xa2, 0x01, 0x04, 0x04]; p.extend(nn(0));
+              cases.push(("key with 150000 key_ops entries", many(&p, &[0x61, b'x'], &[]), Box::new(|b| { let _ = coset::CoseKey::from_slice(b); true })));
+              cases.push(("key set of 150000 keys", many(&nn(0), &[0xa1, 0x01, 0x04], &[]), Box::new(|b| coset::CoseKeySet::from_slice(b).map(|c| { let _ = c.clone().to_vec(); }).is_ok()))); }
+            // maps with N distinct extra entries: header, key, claims set (labels 1000.., two-byte heads)
+            { let distinct = |prefix: Vec<u8>| { let mut b = prefix; for i in 0..N { b.push(0x1a); b.extend_from_slice(&(100_000u32 + i as u32).to_be_bytes()); b.push(0xf6); } b };
+              cases.push(("header with 150000 extra parameters", distinct(mn(0)), Box::new(|b| coset::Header::from_slice(b).map(|c| { let _ = c.clone().to_vec(); }).is_ok())));
+              let mut p = mn(1); p.extend_from_slice(&[0x01, 0x04]);
+              cases.push(("key with 150000 extra parameters", distinct(p), Box::new(|b| coset::CoseKey::from_slice(b).map(|mut c| { c.canonicalize(coset::CborOrdering::Lexicographic); let _ = c.to_vec(); }).is_ok())));
+              let negs = { let mut b = mn(0); for i in 0..N { b.push(0x3a); b.extend_from_slice(&(100_000u32 + i as u32).to_be_bytes()); b.push(0xf6); } b };
+              cases.push(("claims set with 150000 private claims", negs, Box::new(|b| coset::cwt::ClaimsSet::from_slice(b).map(|c| { let _ = c.clone().to_vec(); }).is_ok()))); }
+            for (name, input, run) in cases {
+                let t = std::time::Instant::now();
+                let ok = run(&input);
+                let el = t.elapsed();
+                println!("{} ({} bytes): ok={} in {:?}", name, input.len(), ok, el);
+                if !ok { println!("FAILING-INPUT {}: rejected (a well-formed long input)", name); bad += 1; }
+                if el.as_secs() >= 6 { println!("FAILING-INPUT {} ({} bytes): decoding took {:?}, more than proportional to the input", name, input.len(), el); bad += 1; }
+            }
+        }
         bad
     }).unwrap();
     match h.join() { Ok(0) => 0, Ok(_) => { println!("MEASUREMENT-MISMATCH"); 1 } Err(_) => { println!("PANIC in decode thread"); 1 } }
